@@ -25,10 +25,15 @@ Outcome alphabet (one letter per connection attempt; what the 'network' and the 
     G   WELCOME, then the application calls session.leave(); router replies GOODBYE       [terminal, success]
     M   WELCOME, main() returns                                                          [terminal, success]
     E   WELCOME, main() raises
+    Gl  WELCOME, the application calls session.leave(), TCP is lost BEFORE the router's GOODBYE reply
+    Ml  WELCOME, main() returns (-> the component calls leave()), TCP is lost BEFORE the router's GOODBYE reply
+    J   WELCOME, then nothing: the session stays joined until the end of the run        [last letter of a script]
+(stop() at phase "joined" followed by L/Lc is the third "leave requested, lost before the reply" variant.)
 Within one attempt no virtual time passes: the router reacts immediately and compliantly (closing handshakes are
 answered, TCP is dropped after them), so the end of an attempt has ONE virtual time stamp.
 """
 
+import copy
 import logging
 
 import txaio
@@ -37,7 +42,7 @@ from . import c14_harness as H
 from .wamp_harness import Outcome
 
 PHASES = ("delay", "inflight", "connected", "handshaken", "joined")
-JOINING = ("L", "Lc", "K", "G", "M", "E")
+JOINING = ("L", "Lc", "K", "G", "M", "E", "Gl", "Ml", "J")
 TERMINAL_OK = ("G", "M")
 APPLICABLE = {           # phases of an attempt that exist for an outcome
     "R": ("delay", "inflight"), "Rx": ("delay", "inflight"),
@@ -194,7 +199,7 @@ class Run:
                 obs["main_calls"] += 1
                 o = run.cur_outcome
                 if mode == "sync":
-                    if o == "M":
+                    if o in ("M", "Ml"):
                         return None
                     if o == "E":
                         raise RuntimeError("main failed")
@@ -333,12 +338,10 @@ class Run:
         rec["session"] = len(self.sessions) - 1
         sess = self.sessions[-1] if self.sessions else None
         self._stop_if(p.n, "joined")
-        if outcome == "L":
-            rc.lose(False)
-            rec["end"] = "lost"
-        elif outcome == "Lc":
-            rc.lose(True)
-            rec["end"] = "lost-clean"
+        if outcome in ("L", "Lc"):
+            rec["goodbye_unanswered"] = any(isinstance(m, list) and m and m[0] == 6 for m in rc.recv())
+            rc.lose(outcome == "Lc")
+            rec["end"] = "lost" if outcome == "L" else "lost-clean"
         elif outcome == "K":
             if not rc.ep.lost:
                 rc.router_said_goodbye = True
@@ -360,6 +363,24 @@ class Run:
             self._service(rc)
             if not rc.ep.lost:
                 rc.lose(True)
+        elif outcome == "J":
+            rec["end"] = "stays-joined"
+        elif outcome in ("Gl", "Ml"):
+            if outcome == "Gl":
+                try:
+                    if sess is not None and sess.is_attached():
+                        sess.leave()
+                except Exception as e:
+                    self.obs["harness_notes"].append("session.leave() raised %s" % type(e).__name__)
+            else:
+                f = self.main_futs.get(rec["session"])
+                if f is not None and not txaio.is_called(f):
+                    txaio.resolve(f, None)
+            self.world.settle()
+            said_goodbye = any(isinstance(m, list) and m and m[0] == 6 for m in rc.recv()) or getattr(rc, "client_goodbye_seen", False)
+            rec["goodbye_unanswered"] = bool(said_goodbye)
+            rc.lose(False)
+            rec["end"] = ("leave-requested" if outcome == "Gl" else "main-returned") + "-then-lost-before-goodbye-reply"
         elif outcome in ("M", "E"):
             f = self.main_futs.get(rec["session"])
             if f is not None and not txaio.is_called(f):
@@ -436,6 +457,9 @@ class Run:
             obs["done_calls"] = list(dt.calls)
             obs["jitter_draws"] = len(jt.draws)
             obs["jitter_negative_draws"] = sum(1 for (_m, _s, v) in jt.draws if v < 0)
+        for a in obs["attempts"]:
+            if a.get("conn") is not None:
+                a["conn_lost"] = bool(net.conns[a["conn"]].ep.lost)
         obs["pending_at_end"] = len(net.pending)
         obs["open_conns_at_end"] = sum(1 for rc in net.conns if not rc.ep.lost)
         obs["escaped"] = [repr(e)[:200] for (_w, e) in self.world.escaped]
@@ -444,6 +468,8 @@ class Run:
         obs["breaches"] = list(contract["breaches"][br0:])
         obs["stop_skipped"] = bool(self.case.get("stop")) and (obs["stop"] is None)
         obs["net_events"] = list(net.events)
+        # freeze the observation: the teardown below also reaches listeners / the classifier (same list objects)
+        frozen = copy.deepcopy(obs)
         # tear down what is still open (not part of any verdict)
         for rc in net.conns:
             try:
@@ -452,7 +478,7 @@ class Run:
             except Exception:
                 pass
         net.close()
-        return obs
+        return frozen
 
 
 def run_case(case, strict_reactor=True):
